@@ -73,6 +73,11 @@ type Action struct {
 	Tag       string   `json:"tag,omitempty"`      // generator annotation (e.g. "boundary")
 	Extra     string   `json:"extra,omitempty"`    // probe payload (e.g. the queries to ask)
 	Params    *Config  `json:"params,omitempty"`   // set_params: the new parameter values (funding / module service ignored)
+	// symbolic references: "the n-th context created / request seen in this history". When present they
+	// take precedence over ctx_id / req_id, so a replay stays meaningful after steps have been removed
+	// (transaction hashes, and with them all IDs, shift).
+	CtxRef *int `json:"ctx_ref,omitempty"`
+	ReqRef *int `json:"req_ref,omitempty"`
 }
 
 func (a Action) String() string {
